@@ -84,7 +84,7 @@ def assignment(ctx, c, cand_keys, ptr_vals=None):
     if c.aes is not None:
         out.append("X%d.0=%x" % (ctx.names["_aes_self_tests"], c.aes))
         out.append("X%d.0=%x" % (ctx.names["_sha_self_tests"], c.sha))
-    for k in cand_keys:
+    for k in sorted(set(cand_keys) | set(ctx.samekeys.get(c.eid, []))):
         mk = wc.key_memcmp(k)
         if mk:
             a, oa, b, ob, n = mk
@@ -138,8 +138,10 @@ def build_cases(ctx, tier, rng):
 def predict(ctx, cases, cands):
     lines = ["run %s 1 %d %s" % (c.cid, c.eid, assignment(ctx, c, cands[c.eid].keys())) for c in cases]
     out = ctx.model_lines(lines)
+    vout = ctx.model_lines(["view %s %d %s" % (c.cid, c.eid, assignment(ctx, c, cands[c.eid].keys())) for c in cases])
     for c in cases:
         c.pred = wc.parse_model_run(out[c.cid])
+        c.spec = wc.parse_model_run(vout[c.cid]).get("spec", "")
 
 
 def native_line(ctx, c):
@@ -151,7 +153,8 @@ def native_line(ctx, c):
             toks[i] = "e:" + b.hex()
     if c.mode == "r":
         toks = [("v" if t == "g" else t) for t in toks]
-    c.stubret = 0 if any(e.startswith("W:") for e in c.pred.get("events", [])) or c.entry.endswith(("_submit", "_flush")) else 7
+    sp = ctx.spec[c.eid]
+    c.stubret = 0 if (sp["store"] is not None or sp["ret"] == "mapped") else 7
     return "N %s %s %s %s %s %s %x %s" % (c.cid, c.entry, c.mode, "-" if c.status is None else c.status,
                                           "-" if c.aes is None else c.aes, "-" if c.sha is None else c.sha,
                                           c.stubret, " ".join(toks))
@@ -282,10 +285,10 @@ def run(tier, replay=None):
     seen = set()
     for c in cases:
         if c.status == 1 and ctx.cls[c.eid] == 0 and "n" not in c.args and (c.entry, c.why) not in seen and \
-                all((not isinstance(a, int)) or a <= 4096 for a in c.args) and "1" not in c.pred.get("spec", "1")[1:-1]:
+                all((not isinstance(a, int)) or a <= 4096 for a in c.args) and "1" not in (c.spec or "1")[1:-1]:
             seen.add((c.entry, c.why))
             r = Case(c.cid + "r", c.entry, c.eid, list(c.args), "r", 1, None, None, c.bufs)
-            r.why, r.pred = c.why, c.pred
+            r.why, r.pred, r.spec = c.why, c.pred, c.spec
             extra.append(r)
     cases += extra
     lines = [native_line(ctx, c) for c in cases]
@@ -297,7 +300,8 @@ def run(tier, replay=None):
         if "ptrs" not in c.nat:
             continue
         actual = c.nat["ptrs"].split(",") if c.nat["ptrs"] != "-" else []
-        stores = {int(e.split(":")[1][1:]) for e in c.pred.get("events", []) if e.startswith("W:A")}
+        sp = ctx.spec[c.eid]
+        stores = set() if sp["store"] is None else {sp["store"]}
         jl.append(wc.judge_line(c.cid, "13", c.eid, c.nat, c.stubret, None, assignment(ctx, c, cands[c.eid].keys(), actual), real=(c.mode == "r"), stores=stores))
     jout = ctx.model_lines(jl)
     verdicts = {k: (v.split()[1] if len(v.split()) > 1 else "?") for k, v in jout.items()}
@@ -312,7 +316,7 @@ def run(tier, replay=None):
             ret = c.nat.get("ret", "?")
             if c.nat.get("fault") == "1":
                 kind = "fault"
-            elif "identical" in c.why or c.pred.get("spec", "0")[-1:] == "1":
+            elif "identical" in c.why or (c.spec or "0")[-1:] == "1":
                 kind = "identical_keys_not_refused"
             elif c.status == 1:
                 kind = "failed_status_not_blocking"
